@@ -34,6 +34,7 @@ ASSUMPTIONS = [
     'crash / system crash (fault injection: answers done, then the injected exception is reported as error) is excluded from the one-acknowledgement claim',
     'silence-ack is the command that switches acknowledgements off: it is itself not acknowledged (documented behaviour), the claim applies to commands processed with acknowledgements on',
     'commands contain no control whitespace other than tab / CR / LF (str.split() and split(" ") then agree)',
+    'selector matching is modelled on whole words: Neighbor.name() is twelve words joined by single spaces, none of which contains white space or a comma (addresses, AS numbers, router-id, in-open or a /-joined family list), and a selector term is one or two such words; on such names the regex (^|\\s)term($|\\s|,) is "the words of the term occur as consecutive whole words of the name" (Exa.Api.infixOf). That equivalence is not proved: it is carried by the correspondence, whose neighbor sets contain values that are textual prefixes / suffixes / continuations (with a digit, ":" "." "/") of one another in every key, and whose selectors use those values and truncated / continued look-alikes of them',
     'long tail of handlers (show, list, create, delete, routes, operational) is outside the model: oracle only',
 ]
 PROP = 'C14'
@@ -59,6 +60,21 @@ NBR_SETS = {
         {'peer': '10.0.0.11', 'local_ip': '192.0.2.1', 'local_as': 65000, 'peer_as': 65001, 'router_id': '1.1.1.1', 'families': ['ipv4 unicast', 'ipv6 unicast'], 'attached': True, 'watchdog': [(9, 'dog', False)]},
         {'peer': '10.0.0.111', 'local_ip': '192.0.2.11', 'local_as': 65001, 'peer_as': 65000, 'router_id': '1.1.1.11', 'families': ['ipv6 unicast'], 'attached': True, 'watchdog': []},
     ],
+    # look-alikes: in every selector key one neighbor's value is a textual prefix / suffix /
+    # continuation of another's (addresses continued with ':' or a digit, AS numbers 6500 / 65001 /
+    # 165001, router-ids 1.1.1.1 / 1.1.1.11 / 11.1.1.1, family lists continued with '/')
+    'lookalike-v6': [
+        {'peer': '2001:db8::1', 'local_ip': '2001:db8::a', 'local_as': 6500, 'peer_as': 65001, 'router_id': '1.1.1.1', 'families': ['ipv4 unicast'], 'multi_session': True, 'family_allowed': 'ipv4-unicast', 'attached': True, 'watchdog': []},
+        {'peer': '2001:db8::1:2', 'local_ip': '2001:db8::a:b', 'local_as': 65001, 'peer_as': 165001, 'router_id': '1.1.1.11', 'families': ['ipv4 unicast', 'ipv6 unicast'], 'multi_session': True, 'family_allowed': 'ipv4-unicast/ipv6-unicast', 'attached': True, 'watchdog': [(9, 'dog', True)]},
+        {'peer': '::1', 'local_ip': '::11', 'local_as': 65001, 'peer_as': 6500, 'router_id': '11.1.1.1', 'families': ['ipv4 unicast', 'ipv6 unicast'], 'attached': True, 'watchdog': []},
+        {'peer': '::11', 'local_ip': '::1', 'local_as': 165001, 'peer_as': 6500, 'router_id': '1.1.1.1', 'families': ['ipv4 unicast', 'ipv6 unicast'], 'attached': True, 'watchdog': []},
+    ],
+    'lookalike-v4': [
+        {'peer': '10.0.0.1', 'local_ip': '192.0.2.1', 'local_as': 65001, 'peer_as': 6500, 'router_id': '1.1.1.1', 'families': ['ipv4 unicast', 'ipv6 unicast'], 'attached': True, 'watchdog': []},
+        {'peer': '10.0.0.12', 'local_ip': '192.0.2.12', 'local_as': 6500, 'peer_as': 65001, 'router_id': '1.1.1.11', 'families': ['ipv4 unicast', 'ipv6 unicast'], 'attached': True, 'watchdog': [(9, 'dog', True)]},
+        {'peer': '110.0.0.1', 'local_ip': '92.0.2.1', 'local_as': 165001, 'peer_as': 165001, 'router_id': '11.1.1.1', 'families': ['ipv4 unicast'], 'multi_session': True, 'family_allowed': 'ipv4-unicast', 'attached': True, 'watchdog': []},
+        {'peer': '10.0.0.123', 'local_ip': '192.0.2.1', 'local_as': 65001, 'peer_as': 650, 'router_id': '1.1.1.1', 'families': ['ipv4 unicast', 'ipv6 unicast'], 'multi_session': True, 'family_allowed': 'ipv4-unicast/ipv6-unicast', 'attached': True, 'watchdog': []},
+    ],
     'one-foreign': [
         {'peer': '10.0.0.1', 'local_ip': '192.0.2.1', 'local_as': 65000, 'peer_as': 65001, 'router_id': '1.1.1.1', 'families': ['ipv4 unicast'], 'attached': True, 'watchdog': []},
         {'peer': '10.0.0.2', 'local_ip': '192.0.2.1', 'local_as': 65000, 'peer_as': 65001, 'router_id': '1.1.1.1', 'families': ['ipv4 unicast'], 'attached': False, 'watchdog': []},
@@ -67,7 +83,7 @@ NBR_SETS = {
 
 
 def spec_value(spec: dict, key: str) -> str:
-    return 'in-open' if key == 'family-allowed' else str(spec[FIELD[key]])
+    return spec.get('family_allowed', 'in-open') if key == 'family-allowed' else str(spec[FIELD[key]])
 
 
 def allowed(specs: list[dict], sel: list[dict]) -> set[int]:
@@ -117,20 +133,31 @@ def gen_route_body(rng, ok: bool = True) -> str:
     return f'route {rng.choice(V4_ROUTES)}'  # no next hop: validate_announce refuses the announce
 
 
+def near(rng, value: str) -> str:
+    """A look-alike of a real value: truncated, or continued, at either end (never the value itself)."""
+    digit = rng.choice('0123456789')
+    cands = [value[:-1], value[1:], value + digit, digit + value, value + ':' + digit, value + '.' + digit, value + '/' + value]
+    cands = [c for c in cands if c and c != value and ' ' not in c]
+    return rng.choice(cands)
+
+
 def gen_selector(rng, specs: list[dict]) -> list[dict]:
     defs = []
     for _ in range(rng.choice([1, 1, 1, 2, 2, 3])):
         x = rng.random()
         if x < 0.2:
             ip = '*'
-        elif x < 0.3:
+        elif x < 0.28:
             ip = MISS_IP
+        elif x < 0.36:
+            ip = near(rng, rng.choice(specs)['peer'])
         else:
             ip = rng.choice(specs)['peer']
         terms = []
         for _ in range(rng.choice([0, 0, 1, 1, 2, 3])):
             key = rng.choice(['local-ip', 'local-as', 'peer-as', 'router-id', 'family-allowed'])
-            val = MISS[key] if rng.random() < 0.25 else spec_value(rng.choice(specs), key)
+            y = rng.random()
+            val = MISS[key] if y < 0.15 else near(rng, spec_value(rng.choice(specs), key)) if y < 0.3 else spec_value(rng.choice(specs), key)
             terms.append([key, val])
         defs.append({'ip': ip, 'terms': terms})
     return defs
@@ -289,7 +316,7 @@ def gen_cuts(rng, n: int) -> list[int]:
 
 def gen_case(rng, tier: str) -> dict:
     version = rng.choice([4, 6])
-    nbrs = rng.choice(['default', 'default', 'default', 'two', 'same-as', 'one-foreign'])
+    nbrs = rng.choice(['default', 'default', 'default', 'two', 'same-as', 'one-foreign', 'lookalike-v6', 'lookalike-v6', 'lookalike-v4', 'lookalike-v4'])
     specs = NBR_SETS[nbrs]
     g = Gen(rng, version, specs)
     lines: list[dict] = []
